@@ -194,6 +194,24 @@ def make_project(seed, nfiles, dup=False):
         decls[rng.pick(paths)].append("pub fn notify_helper_%d(app: &AppHandle) {\n    app.emit(\"%s\", %s).ok();\n}\n" % (
             h, ev, rng.pick(['"x"', "1u32", "true"])))
         meta["events"].append(ev)
+    if seed % 2 == 0:
+        # a serde type that only occurs as the error type of a command's `Result`
+        decls[rng.pick(paths)].append("#[derive(Debug, Clone, Serialize, Deserialize)]\npub struct AppFailure {\n    pub code: i32,\n    pub detail: Option<String>,\n}\n")
+        decls[rng.pick(paths)].append("#[tauri::command]\npub fn fallible_op(level: u8) -> Result<u8, AppFailure> {\n    todo!()\n}\n")
+        meta["commands"].append("fallible_op")
+    if seed % 3 == 1:
+        # a serde type whose name starts lower-case (`#[allow(non_camel_case_types)]` mirrors of C structs), used by a command
+        decls[rng.pick(paths)].append("#[allow(non_camel_case_types)]\n#[derive(Debug, Clone, Serialize, Deserialize)]\npub struct ipc_stats {\n    pub sent: u64,\n    pub dropped: u64,\n}\n")
+        decls[rng.pick(paths)].append("#[tauri::command]\npub fn read_ipc_stats(reset: bool) -> Result<ipc_stats, String> {\n    todo!()\n}\n")
+        meta["commands"].append("read_ipc_stats")
+    if type_names:
+        # a helper with a declared return type next to the function that emits its result (two items: they can be moved
+        # apart; the payload of a call is not typed from the callee's signature wherever that lives)
+        hp = rng.pick(paths)
+        tn = rng.pick(type_names)
+        decls[hp].append("pub fn build_progress_%d(done: u32, total: u32) -> %s {\n    todo!()\n}\n" % (seed % 7, tn))
+        decls[hp].append("pub fn report_progress_%d(app: &AppHandle) {\n    app.emit(\"built-progress\", build_progress_%d(0, 10)).ok();\n}\n" % (seed % 7, seed % 7))
+        meta["events"].append("built-progress")
     if layout == 2 and nfiles >= 2:
         # events from a file and from the directory of the same stem (`jobs.rs`, `jobs/worker.rs`: path order and string
         # order of the two differ)
